@@ -7,6 +7,7 @@ from __future__ import annotations
 import collections
 import itertools
 import random
+import unicodedata
 import re
 from typing import Any
 
@@ -294,12 +295,27 @@ def _one(idx: int):
                 fails.append(("C03.strict", f"canonical text is not in the strict profile: {sp[0]}", x))
         if "C07" in which:
             want, got = _receipt_counters(inj, warns)
+            # rendering-level class: the reader reports columns in the NFC-normalised line, so a rewrite that
+            # follows a decomposed sequence on the same source line is reported some columns to the left
+            src_lines = x.split("\n")
+            nfd_lines = {i + 1 for i, ln in enumerate(src_lines) if unicodedata.normalize("NFC", ln) != ln}
+            shifted = set()
             for k in (want - got):
+                if len(k) >= 4 and k[2] in nfd_lines and any(g[:3] == k[:3] and isinstance(g[3], int) and g[3] < k[3] for g in (got - want) if len(g) >= 4):
+                    shifted.add(k[:3])
+            for k in (want - got):
+                if k[:3] in shifted:
+                    fails.append(("C07.nfd-column", f"receipt column is counted in the NFC-normalised line, not in the input line: expected {k}; receipts {sorted(got, key=str)[:5]}", x))
+                    continue
                 fails.append(("C07.missing", f"rewrite without receipt: {k}; receipts {sorted(got, key=str)[:5]}", x))
             for k in (got - want):
                 if k[0] in ("duplicate_key", "constructor_misuse", "pattern_autoquote", "bare_line_dropped") and not is_canon:
                     continue
+                if k[:3] in shifted:
+                    continue
                 fails.append(("C07.spurious" if not is_canon else "C07.canonical", f"receipt without a rewrite{' on canonical input' if is_canon else ''}: {k}", x))
+            # report a genuinely new class before the known rendering-level one
+            fails.sort(key=lambda f: f[0] == "C07.nfd-column")
     nontrivial = len(m.body) > 0 or bool(m.meta)
     if fails:
         clause, what, text = fails[0]
